@@ -30,6 +30,15 @@ def plan(plan, tier, seed):
         plan.verus.append(VerusUnit("c17_target", unit, {"validate_transition_target_state": n3}, ["canary_target"]))
     except AnchorLost as e:
         plan.anchor_errors.append((n3, str(e)))
+    n4 = "C17.verus.validate_fsm_state_coverage.every_transition_checked"
+    plan.ob(n4, "verus", "proved", functions=["validate_fsm_state_coverage (from `for arm in &fsm.arms` to the end)"],
+            what="the declaration is accepted iff validate_transition_target_state accepts EVERY transition of every plain arm and of every guard of every guarded arm")
+    try:
+        unit = vlib.verus_file([vC17.COV_MODEL, vC17.coverage_fn(text), vlib.verus_canary("canary_cov", "x: u64", [])])
+        plan.verus.append(VerusUnit("c17_coverage", unit, {"validate_fsm_state_coverage_traversal": n4}, ["canary_cov"]))
+    except AnchorLost as e:
+        plan.anchor_errors.append((n4, str(e)))
+    plan.dropped.append(vC17.coverage_fn.__doc__.strip())
     plan.dropped.append(vC17.target_fn.__doc__.strip())
     plan.dropped.append(vC17.apply_fn.__doc__.strip())
     plan.functions += ["src/interpreter/src/state_machines.rs: execute_fsm_pipe_impl, apply_transitions"]
@@ -40,5 +49,5 @@ def plan(plan, tier, seed):
         "syntax-tree nodes are opaque identities; MResult errors are `None`; trace_println! statements are removed",
         "termination: the outer loop is `for step in 0..p.max_steps`, each inner loop ranges over a finite list (Verus checks the for-loops' implicit measures); evaluators are assumed to return",
     ]
-    plan.undecided_clauses += ["C17: execute_fsm_pipe (spec lookup, argument count and kind check, start state), validate_fsm_state_coverage (which transitions it visits, the start-state check, 'declared state without an arm'), the declared output kind; the contracts of execute_fsm_pipe_impl (apply_transitions uninterpreted) and of apply_transitions are proved separately and not composed mechanically"]
+    plan.undecided_clauses += ["C17: execute_fsm_pipe (spec lookup, argument count and kind check, start state), validate_fsm_state_coverage's collection of declared state names and start-state check ('declared state without an arm'), the declared output kind; the contracts of execute_fsm_pipe_impl (apply_transitions uninterpreted) and of apply_transitions are proved separately and not composed mechanically"]
     plan.level = "proof"
